@@ -13,6 +13,9 @@ import Mathlib.Algebra.Field.Rat
 import Mathlib.Tactic.FinCases
 import Mathlib.Tactic.NormNum
 import DarsiaProofs.Csc
+import DarsiaProofs.CscGeneral
+import DarsiaProofs.SaddleBridge
+import DarsiaProps.C06
 import DarsiaGen.Dispatch
 namespace Darsia.C08
 open Darsia Darsia.Saddle
@@ -43,6 +46,13 @@ theorem full_iff_pinned {w : F → K} (hw : ∀ e, w e ≠ 0) {D : C → F → K
     Full w D k g f 0 u p lam ↔ (lam = 0 ∧ Pinned w D k g f p ∧ u = fluxUpdate w D g p) :=
   Saddle.full_iff_pinned hw hD k g hf u p lam
 
+/-- linearity in the data: a solution for `(g, f, r)` scaled by `a` is a solution for the scaled right-hand side, for
+every magnitude `a` (the oracle therefore solves the same systems at several magnitudes of the right-hand side) -/
+theorem full_system_homogeneous {w : F → K} {D : C → F → K} {k : C} {g : F → K} {f : C → K} {r : K}
+    {u : F → K} {p : C → K} {lam : K} (a : K) (h : Full w D k g f r u p lam) :
+    Full w D k (fun e => a * g e) (fun c => a * f c) (a * r) (fun e => a * u e) (fun c => a * p c) (a * lam) :=
+  Saddle.full_homogeneous a h
+
 /-- the zero-mean hypothesis of `pressure_equiv` is necessary: in the flux-eliminated system the
 multiplier equals minus the total source. -/
 theorem reduced_lambda_eq_neg_total {w : F → K} {D : C → F → K} (hD : ColSumZero D) {k : C} {g : F → K}
@@ -63,6 +73,83 @@ example : Full (K := ℚ) (F := Fin 1) (C := Fin 2) (fun _ => 2) (fun c _ => if 
 
 example : ColSumZero (K := ℚ) (F := Fin 1) (C := Fin 2) (fun c _ => if c = 0 then 1 else -1) := by
   intro e; simp [Fin.sum_univ_two]
+
+/-! ### bridge: the executable model (what the driver computes) IS the abstract system
+
+`DarsiaModel.Saddle` builds every matrix by tabulating an entry formula over ℚ; the theorems below identify
+its operators with the abstract ones for the index sets `Fin nf`, `Fin nc` (`wF`, `DF` = the model's weights and
+divergence read as functions on `Fin`), so that `flux_reduced_equiv` / `pressure_equiv` apply to the driver's output. -/
+
+open Darsia.SaddleBridge in
+/-- `assembleFull` (the model of `sps.bmat([[W, −Dᵀ, 0],[D, 0, −cᵀ],[0, c, 0]])`): `A [u|p|lam] = [g|f|r]` in
+the model ⇔ the abstract `Full` predicate -/
+theorem model_full_is_abstract (w : Saddle.Vec) (D : Saddle.Mat) (k : Nat) (hk : k < D.size)
+    (u p g f : Nat → ℚ) (lam r : ℚ) :
+    Saddle.mulVec (Saddle.assembleFull w D k) (Saddle.tabV (w.size + D.size + 1) (cat3 w.size D.size u p lam))
+        = Saddle.tabV (w.size + D.size + 1) (cat3 w.size D.size g f r)
+      ↔ Saddle.Full (wF w) (DF w D) ⟨k, hk⟩ (fun e => g e.val) (fun c => f c.val) r
+          (fun e => u e.val) (fun c => p c.val) lam :=
+  full_iff w D k hk u p g f lam r
+
+open Darsia.SaddleBridge in
+/-- `eliminateFlux` (model of `eliminate_flux`): the reduced matrix / rhs it builds ARE the abstract Schur system -/
+theorem model_reduced_is_abstract (w : Saddle.Vec) (D : Saddle.Mat) (k : Nat) (hk : k < D.size)
+    (p g f : Nat → ℚ) (lam r : ℚ) :
+    (let E := Saddle.eliminateFlux (Saddle.assembleFull w D k)
+        (Saddle.tabV (w.size + D.size + 1) (cat3 w.size D.size g f r)) w.size
+     Saddle.mulVec E.1 (Saddle.tabV (D.size + 1) (cat2 D.size p lam)) = E.2.1)
+      ↔ Saddle.Reduced (wF w) (DF w D) ⟨k, hk⟩ (fun e => g e.val) (fun c => f c.val) r (fun c => p c.val) lam :=
+  reduced_iff w D k hk p g f lam r
+
+open Darsia.SaddleBridge in
+/-- `eliminateMultiplier` (model of `eliminate_lagrange_multiplier`, dense `dropRowCol`): its rows are the Schur
+complement with row / column `k` skipped -/
+theorem model_pinned_rows (w : Saddle.Vec) (D : Saddle.Mat) (k : Nat) (hk : k < D.size) (g f y : Nat → ℚ) (r : ℚ) :
+    (let E := Saddle.eliminateFlux (Saddle.assembleFull w D k)
+        (Saddle.tabV (w.size + D.size + 1) (cat3 w.size D.size g f r)) w.size
+     Saddle.mulVec (Saddle.dropRowCol E.1 k) (Saddle.tabV (D.size - 1) y) = Saddle.dropVec E.2.1 k)
+      ↔ ∀ i, i < D.size - 1 →
+          sumTo (D.size - 1) (fun j => schurN w D (Saddle.up k i) (Saddle.up k j) * y j)
+            = redRhsN w D g f (Saddle.up k i) :=
+  pinned_rows w D k hk g f y r
+
+open Darsia.SaddleBridge in
+/-- **what the driver computes solves the original full system**, for each of the three formulations, provided
+the inner solves are correct (`InnerSolveCorrect`: contract of the back-end / of the model's Gauss–Jordan), the
+flux weights are non-zero and `1ᵀD = 0`, `Σ f = 0`, `r = 0` (only the pressure branch uses the last three). -/
+theorem model_linearSolve_sound (hinner : InnerSolveCorrect) (form : Saddle.Form) (w : Saddle.Vec) (D : Saddle.Mat)
+    (k : Nat) (hw : ∀ e, e < w.size → w.getD e 0 ≠ 0) (hk : k < D.size)
+    (hD : ∀ e, e < w.size → sumTo D.size (fun c => D.get c e) = 0)
+    (rhs x : Saddle.Vec) (hr : rhs.size = w.size + D.size + 1)
+    (hf : sumTo D.size (fun c => rhs.getD (w.size + c) 0) = 0) (hr0 : rhs.getD (w.size + D.size) 0 = 0)
+    (h : Saddle.linearSolve form (Saddle.assembleFull w D k) rhs w.size k none = .ok x) :
+    Saddle.mulVec (Saddle.assembleFull w D k) x = rhs :=
+  linearSolve_sound w D k hinner form hw hk hD rhs x hr hf hr0 h
+
+open Darsia.SaddleBridge in
+/-- `1ᵀD = 0` is not assumed for the finite-volume divergence of a tensor grid: it is C06's theorem
+`div_column_sum_zero` (builder b), imported -/
+theorem fv_divergence_colsum_zero (shape : List Nat) (h : List Rat) (e : Nat) (he : e < numFaces shape) :
+    sumTo (fvDiv shape h).size (fun c => (fvDiv shape h).get c e) = 0 := by
+  rw [fvDiv_size]
+  rw [sumTo_congr (g := fun c => divEntry shape h c e) (fun c hc => fvDiv_get shape h c e hc he)]
+  exact C06.div_column_sum_zero shape h e he
+
+open Darsia.SaddleBridge in
+/-- … hence on every tensor grid (any shape, any voxel sizes) and for all non-zero face weights the three
+formulations of the model return solutions of the full system -/
+theorem model_linearSolve_sound_fv (hinner : InnerSolveCorrect) (form : Saddle.Form) (shape : List Nat) (h : List Rat)
+    (w : Saddle.Vec) (hwn : w.size = numFaces shape) (k : Nat) (hw : ∀ e, e < w.size → w.getD e 0 ≠ 0)
+    (hk : k < numCells shape) (rhs x : Saddle.Vec) (hr : rhs.size = w.size + numCells shape + 1)
+    (hf : sumTo (numCells shape) (fun c => rhs.getD (w.size + c) 0) = 0)
+    (hr0 : rhs.getD (w.size + numCells shape) 0 = 0)
+    (hs : Saddle.linearSolve form (Saddle.assembleFull w (fvDiv shape h) k) rhs w.size k none = .ok x) :
+    Saddle.mulVec (Saddle.assembleFull w (fvDiv shape h) k) x = rhs := by
+  have hsz := fvDiv_size shape h
+  apply linearSolve_sound w (fvDiv shape h) k hinner form hw (by rw [hsz]; exact hk) _ rhs x
+    (by rw [hsz]; exact hr) (by rw [hsz]; exact hf) (by rw [hsz]; exact hr0) hs
+  intro e he
+  exact fv_divergence_colsum_zero shape h e (by omega)
 
 /-! ### dispatch (generated acceptance matrix) -/
 
@@ -96,17 +183,37 @@ theorem documented_backends_complete :
 
 /-! ### CSC surgery (`setup_eliminate_lagrange_multiplier`, `eliminate_lagrange_multiplier`)
 
-Full statement aimed at (NOT proved in this generality):
-  `∀ m k, patternOk m.indices m.indptr k → ∃ r, surgery m k = .ok r ∧ r.ncols + 2 = m.ncols ∧
-     ∀ i j < r.ncols, entry r i j = entry m (up k i) (up k j)`
-i.e. for every well-formed CSC matrix whose multiplier row/column couples to the pinned cell only and in
-which no other column is emptied, the array surgery equals dropping rows/columns `{k, last}` of the dense
-matrix. What is proved: the same conclusion from the decidable per-pattern certificate `surgeryCheck`
-(instead of `patternOk`), for arbitrary data; the check evaluates `patternOk` and `surgeryCheck` with the
-model on every grid shape of the C07 range and compares the model's arrays with the implementation's. -/
+`DarsiaModel.Csc.surgery` follows the numpy operations one by one (`np.arange`, `np.where`, `np.unique`,
+`np.delete`, index shift, the `indptr[row+1:] -= 1` loop, `np.unique(indptr)`, the length assert).
+`patternOk` is the decidable well-formedness the code silently relies on (monotone `indptr` from 0 to nnz,
+the multiplier column only couples to row `k`, no other column is emptied); the check evaluates it on the
+pattern of every grid shape. -/
 
-/-- **partial**: for any data (weights) and any additive structure, if the sparsity pattern passes the
-certificate, the arrays produced by the surgery represent the matrix with rows/columns `k`, `last` dropped. -/
+/-- **general theorem**: for EVERY well-formed pattern and arbitrary data (weights) the array surgery
+succeeds, removes exactly two columns, and entry `(i, j)` of the result is entry `(up k i, up k j)` of the
+input — rows and columns `k` and `last` are dropped (`up k` skips index `k`; `last` is never reached). -/
+theorem csc_surgery_dense {α : Type} [Add α] [OfNat α 0] (m : Csc.CSC α) (k : Nat)
+    (hp : Csc.patternOk m.indices m.indptr k = true) (hlen : m.data.length = m.indices.length) :
+    ∃ r, Csc.surgery m k = .ok r ∧ r.ncols + 2 = m.ncols ∧
+      ∀ i j, j < r.ncols → Csc.entry r i j = Csc.entry m (Csc.up k i) (Csc.up k j) :=
+  Csc.surgery_dense m k hp hlen
+
+/-- the same in matrix form: `toDense (surgery m k) = dropRowCol (toDense m) {k, last}` (dense matrices as
+column-major lists; `dropRowCol` deletes list positions `k` and `last` in both directions) -/
+theorem csc_surgery_toDense {α : Type} [Add α] [OfNat α 0] (m : Csc.CSC α) (k : Nat)
+    (hp : Csc.patternOk m.indices m.indptr k = true) (hlen : m.data.length = m.indices.length) :
+    ∃ r, Csc.surgery m k = .ok r ∧
+      Csc.toDenseT r (m.ncols - 2) = Csc.dropRowCol 0 (Csc.toDenseT m m.ncols) k (m.ncols - 1) :=
+  Csc.surgery_toDense m k hp hlen
+
+/-- the structural part in closed form: `rm_indices`, the shifted row indices of the kept entries and the new
+`indptr` = number of kept positions below each surviving column boundary -/
+theorem csc_surgery_arrays (I P : List Nat) (k : Nat) (hp : Csc.patternOk I P k = true) :
+    Csc.surgeryPattern I P k = .ok (Csc.rmIndices I P k, Csc.newIndices I P k, Csc.newIndptr I P k) :=
+  (Csc.wf_of_patternOk hp).surgeryPattern_ok
+
+/-- certificate route (kept from round 1; now a special case of `csc_surgery_dense`): if the sparsity pattern passes the
+decidable per-pattern certificate, the arrays produced by the surgery represent the matrix with rows/columns `k`, `last` dropped. -/
 theorem csc_surgery_dense_partial {α : Type} [Add α] [OfNat α 0] (m r : Csc.CSC α) (k : Nat)
     (hlen : m.data.length = m.indices.length)
     (hs : Csc.surgery m k = .ok r) (hc : Csc.surgeryCheck m.indices m.indptr k = true) :
